@@ -363,7 +363,7 @@ if "C20" in CLAIMED:
 
 _VOX6 = (" Round 6: OKI/VOX ADPCM odd item counts (KF-VOX-ODD / KF-C10-vox-odd) are REPAIRED in the library (the odd sample of a call is held for the next call / for close); "
          "lean/SfModel/Oki.lean models the held sample, the old rule stays as writeBlockOld / readBlockOld; vlib/voxcamp.py cuts one vector of shorts into calls at odd and even positions. ")
-CLAIMED["C05"]["text"] += _VOX6 + "Full strength: vox_read_contract, vox_read_call_contract, vox_write_contract (SfProps/C05Vox.lean); no VOX class is waived any more."
+CLAIMED["C05"]["text"] += _VOX6 + "Full strength: vox_handle_read (sf_read_* on a VOX handle after any history: min (n, frames left), position, stream, zero fill at the end), vox_read_contract, vox_read_call_contract, vox_write_contract (SfProps/C05Vox.lean); no VOX class is waived any more."
 CLAIMED["C06"]["text"] += _VOX6 + "vox_read_partition: any partition into read calls of any parity delivers the same stream."
 CLAIMED["C07"]["text"] += _VOX6 + "vox_partition (two calls cut anywhere = one call), vox_file_bytes_partition (closed file = pair encoder over the concatenated samples), vox_write_call_staging."
 CLAIMED["C04"]["text"] += _VOX6 + "vox_frames_bound: N <= F < N + 2 for every partition into write calls, vox_reopen_delivers_frames."
